@@ -211,11 +211,14 @@ inline std::string makeAsm(sim::Rng &r) {
   auto data = [&]() { return "d" + std::to_string(r.below((uint64_t)nd)); };
   for (int b = 0; b < nb; b++) {
     switch (r.below(7)) {
-      case 0: case 1:   // put a character
+      case 0: case 1:   // put a character; sometimes the call is simply repeated (areg and the slots survive it)
         s += "LDAC " + std::to_string(33 + r.below(90)) + "\nLDBM 1\nSTAI 2\nLDAC " + std::to_string(streams[r.below(8)]) + "\nSTAI 3\nLDAC 1\nOPR SVC\n";
+        if (r.chance(1, 4)) { int n = 1 + (int)r.below(3); for (int q = 0; q < n; q++) s += "OPR SVC\n"; }
         break;
       case 2:           // get a character into a data word
-        s += "LDAC " + std::to_string(instreams[r.below(8)]) + "\nLDBM 1\nSTAI 2\nLDAC 2\nOPR SVC\nLDAM 1\nLDAI 1\nSTAM " + data() + "\n";
+        s += "LDAC " + std::to_string(instreams[r.below(8)]) + "\nLDBM 1\nSTAI 2\nLDAC 2\nOPR SVC\n";
+        if (r.chance(1, 4)) s += "OPR SVC\n";          // read twice: the second value overwrites the first
+        s += "LDAM 1\nLDAI 1\nSTAM " + data() + "\n";
         break;
       case 3:           // arithmetic on data words
         s += "LDAM " + data() + "\nLDBM " + data() + "\nOPR " + (r.chance(1, 2) ? "ADD" : "SUB") + "\nSTAM " + data() + "\n";
@@ -240,6 +243,16 @@ inline std::string makeAsm(sim::Rng &r) {
     }
   }
   s += "LDAM " + data() + "\nLDBM 1\nSTAI 2\nLDAC 0\nOPR SVC\n";
+  return s;
+}
+
+// Any image is a hexasm program: one DATA word per image word.
+inline std::string imageAsAsm(const std::string &image) {
+  std::string s;
+  for (size_t k = 0; k + 3 < image.size(); k += 4) {
+    uint32_t w = (uint32_t)(uint8_t)image[k] | ((uint32_t)(uint8_t)image[k + 1] << 8) | ((uint32_t)(uint8_t)image[k + 2] << 16) | ((uint32_t)(uint8_t)image[k + 3] << 24);
+    s += "DATA " + std::to_string((int64_t)(int32_t)w) + "\n";
+  }
   return s;
 }
 
